@@ -101,6 +101,8 @@ class SymArray(np.ndarray):
         except ValueError:
             return real
         if fn.startswith(REPO_SRC):
+            if getattr(self, '_ikind', False):
+                return np.dtype(np.int64)
             return np.dtype(complex) if self.is_complex() else np.dtype(float)
         return real
 
@@ -144,6 +146,8 @@ class SymArray(np.ndarray):
     def copy(self, order='C'):
         out = SymArray(self.shape)
         out[...] = self
+        if getattr(self, '_ikind', False):
+            out._ikind = True
         return out
 
     def mean(self, axis=None, **kw):
@@ -153,7 +157,9 @@ class SymArray(np.ndarray):
         return np.ndarray.tolist(self)
 
     def __array_finalize__(self, obj):
-        pass
+        # views (slices, reshapes) of an integer-dtype symbolic array stay integer; computed results do not
+        if obj is not None and getattr(obj, '_ikind', False) and self.base is not None:
+            self._ikind = True
 
     def __array_function__(self, func, types, args, kwargs):
         h = _HANDLERS.get(func)
